@@ -172,6 +172,11 @@ def _impl(op, a):
         return guarded(lambda: fbool(_mesh(a[0], a[1]).contains(*c03._items(a[2]))))
     if op == "mmavoids":
         return guarded(lambda: fbool(_mesh(a[0], a[1]).avoids(*c03._items(a[2]))))
+    if op in ("mmcontainedin", "mmavoidedby"):
+        # Patt.contained_in / avoided_by with several mesh-pattern targets (a[1] = p1/c1;p2/c2;...)
+        tg = [] if a[1] == "-" else [_mesh(*t.split("/")) for t in a[1].split(";")]
+        it = c03._item(a[0])
+        return guarded(lambda: fbool(it.contained_in(*tg) if op == "mmcontainedin" else it.avoided_by(*tg)))
     raise ValueError("unknown op " + op)
 
 
@@ -253,6 +258,13 @@ def oracle(op, a):
         if op == "mmcontains":
             return fbool(all(_item_in_mesh(t, p, psh) for t in toks))
         return fbool(all(not _item_in_mesh(t, p, psh) for t in toks))
+    if op in ("mmcontainedin", "mmavoidedby"):
+        tg = [] if a[1] == "-" else [(pseq(t.split("/")[0]), pcells(t.split("/")[1])) for t in a[1].split(";")]
+        if a[0] == "x" or any(not _valid_mesh(p, psh) for p, psh in tg):
+            return None
+        if op == "mmcontainedin":
+            return fbool(all(_item_in_mesh(a[0], p, psh) for p, psh in tg))
+        return fbool(all(not _item_in_mesh(a[0], p, psh) for p, psh in tg))
     return None
 
 
@@ -267,6 +279,8 @@ def nontrivial(op, a, out):
         return len(pseq(a[1])) >= 2 and len(pseq(a[0])) >= 1
     if op in ("mmcontains", "mmavoids"):
         return len(pseq(a[0])) >= 2 and a[2] != "-"
+    if op in ("mmcontainedin", "mmavoidedby"):
+        return ";" in a[1]
     return len(pseq(a[0])) >= 1
 
 
@@ -483,6 +497,8 @@ def run(ctx):
         "submeshS 0,1 0.0,0.1,0.2,1.0,1.1,1.2 1", "submesh 0,1,2 1.1,1.2,2.1,2.2 0,2", "submeshS 0,1,2 1.1,1.2,2.1,2.2 0,2",
         "submesh 0,1,2 1.1,1.2,2.1 0,2", "submesh 1,0,2 0.0,0.1,1.0,1.1 2", "submeshS 1,0,2 0.0,0.1,1.0,1.1 2",
         "permin 0,1 0,2,1 1.1", "permin _ 0 0.0", "mmcontains 0,1 1.1 c:0,1;m:0/_", "mmavoids 0,1 1.1 m:0/0.0;c:1,0",
+        "mmcontainedin m:0/0.0,0.1,1.0,1.1 0/0.0,0.1,1.0,1.1;0,1/_", "mmcontainedin m:0/_ 0/0.0,0.1,1.0,1.1;0,1/_", "mmavoidedby m:0/0.0 0,1/_;1,0/_",
+        "mmcontainedin c:0 0,1/1.1;0/_", "mmcontainedin m:0/0.0 -", "mmavoidedby c:0,1 1,0/_;0,1/1.1", "mmcontainedin m:0,1/1.1 0,1/_;0,1/1.1;0,2,1/_",
         "mmcontains 0 0.1 m:0/0.0", "mmcontains 0 0.1 m:0/_", "mmavoids 0 0.0 m:0/0.1", "mmavoids 0 _ m:0/0.1", "mmavoids 0 0.1 m:0/_",
         "isshaded1 3,2,1,0 0.0,0.1,0.2 0 1", "isshaded 3,2,1,0 0.0,0.1,1.1 0 0 1 1", "isshaded 3,2,1,0 0.0,0.1,1.1,1.2,2.1,2.2 1 1 2 2",
         "ispointfree 4,0,1,2,3 _ 0 2 2 3",
@@ -579,6 +595,15 @@ def run(ctx):
                                   "k": "k:%s/%s" % (fseq(q2), fseq(V))}[kind])
             rng.shuffle(items)
             lines.append("%s %s %s %s" % (rng.choice(["mmcontains", "mmavoids"]), fseq(p), fcells(sh), ";".join(items)))
+            # the dual calls: one item against SEVERAL targets (the planted container, sub-patterns of it, small
+            # patterns whose underlying permutations sit inside each other with different shadings; seed C06-11)
+            tgs = ["%s/%s" % (fseq(p), fcells(sh))]
+            for _ in range(rng.randrange(1, 4)):
+                k2 = rng.randrange(0, min(n, 3) + 1)
+                q2 = ml.rand_perm(rng, k2) if rng.random() < 0.5 else ml.standardize([p[i] for i in sorted(rng.sample(range(n), k2))])
+                tgs.append("%s/%s" % (fseq(q2), fcells(ml.rand_shading(rng, k2, rng.choice([0, 0, 2, 4])))))
+            rng.shuffle(tgs)
+            lines.append("%s %s %s" % (rng.choice(["mmcontainedin", "mmavoidedby"]), items[0], ";".join(tgs)))
         else:
             l, r2 = sorted((rng.randrange(n + 1), rng.randrange(n + 1)))
             b, t = sorted((rng.randrange(n + 1), rng.randrange(n + 1)))
